@@ -654,12 +654,22 @@ def replay_directed_all():
     return rp
 
 
-def c01_units():
+def lock_units(pid, prefix):
+    """The whole lock discipline as units of another property: the call-site scan delegates three sites to the units that
+    verify them (forced write, flush of disconnect(), write batch of _run) - a property that relies on "every path to the
+    wire holds the write lock" has to claim all four, or a change that unlocks one of the delegated sites only fails C12
+    (round 11: the flush of disconnect() moved in front of the lock, found independently for C01, C11, C12 and C18)."""
+    from . import c11
     us = []
-    for u, nm in ((CallSites(), 'C01.writer.lock.callsites'), (WritePacketLock(), 'C01.writer.lock.write_packet')):
-        u.prop, u.name = 'C01', nm
+    for u, nm in ((CallSites(), 'callsites'), (WritePacketLock(), 'write_packet'), (DisconnectFlush(), 'disconnect-flush'),
+                  (c11.RunLoop(), 'run-loop')):
+        u.prop, u.name = pid, '%s.%s' % (prefix, nm)
         us.append(u)
     return us
+
+
+def c01_units():
+    return lock_units('C01', 'C01.writer.lock')
 
 
 def _own_units(tier):
